@@ -154,7 +154,7 @@ func toEnumList(src val.EnumList, v interface{}) (val.EnumList, error) {
 		}
 		return l, nil
 	default:
-		if e, err := toEnum(src, v); err != nil {
+		if e, err := toEnum(src, v); err == nil {
 			return val.EnumList([]val.Enum{e}), nil
 		}
 	}
